@@ -220,10 +220,19 @@ fn arrow_inner(input: &[u8], rg: &RefGame) -> Result<u64, (String, String)> {
 			return Err(e("value", format!("id row {} differs", i)));
 		}
 	}
+	let no_nulls = |a: &dyn Array, what: &str| -> Result<(), (String, String)> {
+		if a.null_count() != 0 {
+			return Err(("validity".to_string(), format!("{} has {} null rows; only leader/follower structs (absent characters) may be null", what, a.null_count())));
+		}
+		Ok(())
+	};
 	let ports_sa = view::arrow_child(&sa, "ports").and_then(view::arrow_struct).ok_or_else(|| e("name", "no struct 'ports'".into()))?;
+	no_nulls(ports_sa, "ports")?;
+	no_nulls(view::arrow_child(&sa, "id").unwrap(), "id")?;
 	for (pi, pc) in rg.ports.iter().enumerate() {
 		let pname = format!("P{}", pc.port + 1);
 		let psa = view::arrow_child(ports_sa, &pname).and_then(view::arrow_struct).ok_or_else(|| e("name", format!("no struct ports.{}", pname)))?;
+		no_nulls(psa, &format!("ports.{}", pname))?;
 		for fo in [false, true] {
 			if fo && !pc.ics {
 				continue;
@@ -239,6 +248,11 @@ fn arrow_inner(input: &[u8], rg: &RefGame) -> Result<u64, (String, String)> {
 			}
 			for (kind, n) in [(Kind::Pre, view::PRE.len()), (Kind::Post, view::POST.len())] {
 				let ksa = view::arrow_child(csa, kind.name()).and_then(view::arrow_struct).ok_or_else(|| e("name", format!("no struct {}.{}.{}", pname, cname, kind.name())))?;
+				for i in 0..rows {
+					if !ksa.validity().map_or(true, |b| b.get_bit(i)) && rg.rows[i].chars[pi][fo as usize].is_some() {
+						return Err(e("validity", format!("{}.{}.{} row {} is null although the character is present", pname, cname, kind.name(), i)));
+					}
+				}
 				for li in 0..n {
 					let row = &spec::layout(kind)[li];
 					let mem = FrameLike::leaf(&g1.frames, kind, pi, fo, li);
@@ -257,6 +271,9 @@ fn arrow_inner(input: &[u8], rg: &RefGame) -> Result<u64, (String, String)> {
 								if a.bits(i) != m.bits(i) {
 									return Err(e("value", format!("{}.{}.{}.{} row {}: exported {:#x}, in memory {:#x}", pname, cname, kind.name(), row.path, i, a.bits(i), m.bits(i))));
 								}
+								if !a.is_valid(i) && rg.rows[i].chars[pi][fo as usize].is_some() {
+									return Err(e("validity", format!("{}.{}.{}.{} row {} is null although the character is present", pname, cname, kind.name(), row.path, i)));
+								}
 							}
 						}
 					}
@@ -270,6 +287,9 @@ fn arrow_inner(input: &[u8], rg: &RefGame) -> Result<u64, (String, String)> {
 		}
 		let n = spec::layout(kind).len();
 		let ksa = view::arrow_child(&sa, kind.name()).and_then(view::arrow_struct);
+		if let Some(k) = ksa {
+			no_nulls(k, kind.name())?;
+		}
 		for li in 0..n {
 			let row = &spec::layout(kind)[li];
 			if let Some(m) = FrameLike::leaf(&g1.frames, kind, 0, false, li) {
@@ -285,6 +305,8 @@ fn arrow_inner(input: &[u8], rg: &RefGame) -> Result<u64, (String, String)> {
 	}
 	if spec::gte(v, (3, 0)) {
 		let la = view::arrow_child(&sa, "item").and_then(view::arrow_list).ok_or_else(|| e("name", "no list 'item'".into()))?;
+		no_nulls(la, "item")?;
+		no_nulls(la.values().as_ref(), "item values")?;
 		let offs: Vec<i32> = la.offsets().buffer().iter().copied().collect();
 		let mem_offs = g1.frames.item_offsets().unwrap();
 		if offs != mem_offs {
